@@ -44,6 +44,12 @@ PROPERTY_META = {
     'C09': dict(not_covered='every modular / number-theoretic function except bn_mod_2b and bn_mod_basic (the latter over the ASSUMED division kernel: range and sign of the residue, not Q*m + R == a) and every recoding except bn_rec_win '
                 '(bn_rec_reg: frame/length/error behaviour only; bn_rec_slw/naf/tnaf/jsf/glv/sac/frb: the NAF recoding was tried again and exhausts the object table, DESIGN P36): '
                 'their correctness rests on division/multiplication or was not reached'),
+    'C12': dict(not_covered='the second sentence of the property (exponentiation = repeated operation) entirely; of the first sentence: every group operation, endomorphism, Frobenius, pairing-parameter getter and test is an ABSTRACT callee '
+                '(uninterpreted value carriers + recorded verdicts) - what is proved for g1_is_valid and g2_is_valid is that the result is EXACTLY not-identity(A) && on-curve(A) && EQ(L, R) with L, R the terms of the branch taken '
+                '(every family of the switch; K16 and G1-K18 in guard form / excluded), evaluated on the argument, identity rejected without any group operation, argument unchanged; that those terms characterise the order-r subgroup is not claimed. '
+                'gt_is_valid: only the K16 branch is under contract (the other families, including the BN/B12 branch of the shipped curve, exhaust 12 GB while cbmc builds the canary trace); observations by code reading, no build to reproduce: '
+                'B12_383 has no order test, SG18 falls through to the default branch, the generic branch has no cyclotomic test (DESIGN 0.2)',
+                assumptions=['-DVC_CTX_RAND context model: core_get()->ep_id is read outside the error prefix of the context']),
     'C14': dict(not_covered='the compression / round functions (SHA-2 rounds, BLAKE2 G, AES rounds and key schedule: abstract in every unit - digest and cipher VALUES can only be compared with a second transcription of the standard, which is not a contract on one program); '
                 'SHA256FinalBits, the SHA-384/512 finalisation twins, md_xmd_sh224/384/512 (same macro as the verified md_xmd_sh256), BLAKE2s buffering; HMAC, KDF/MGF, XMD and the CBC padding are verified over abstract primitives for BOUNDED lengths (stated per unit); '
                 'observations not claimed as findings: bc_aes_cbc_enc/dec refuse the empty message, md_xmd computes ceil(len/32) in signed int before the range check (findings/c14x_repro_*.c)'),
